@@ -106,11 +106,13 @@ impl Timestamp {
     /// Returns an error if the formatting fails
     pub fn format(&self, format: TimestampFormat, w: &mut impl io::Write) -> Result<(), FormatTimestampError> {
         match format {
+            // `RFC3339` and `RFC1123` end with a literal UTC designator (`Z` / `GMT`),
+            // so the value must be converted to UTC before its fields are printed.
             TimestampFormat::DateTime => {
-                self.0.format_into(w, RFC3339)?;
+                self.0.to_offset(time::UtcOffset::UTC).format_into(w, RFC3339)?;
             }
             TimestampFormat::HttpDate => {
-                self.0.format_into(w, RFC1123)?;
+                self.0.to_offset(time::UtcOffset::UTC).format_into(w, RFC1123)?;
             }
             TimestampFormat::EpochSeconds => {
                 let val = self.0.unix_timestamp_nanos();
